@@ -76,12 +76,13 @@ PROPS = {
                         'FileInputNodeTask / ProducedNodeTask / MissingCommandTask'],
     },
     'C10': {
-        'units': ['extcmd'],
+        'units': ['extcmd', 'subprocess'],
         'design_ref': 'DESIGN.md section 4, C10',
         'claim': 'every stored command result that is not a success is invalid (retried next build); only a successful stored result counts as a prior '
-                 'result (so a skipped / propagated-failure value can never short-cut execution)',
+                 'result (so a skipped / propagated-failure value can never short-cut execution); cleanUpExecutedProcess (POSIX) reports success only for '
+                 'a reaped process whose wait status word is 0, cancelled for SIGINT/SIGKILL, failed otherwise, exactly one processFinished and one completion',
         'not_decided': ['getResultForOutput / provideValue / execute (not under contract at this commit)', 'transitive non-execution across the graph and '
-                        'parallel timing', 'the wait-status to process-status mapping in Subprocess.cpp'],
+                        'parallel timing', 'the Windows branch of Subprocess.cpp (not compiled here)'],
     },
     'C09': {
         'units': ['signature', 'engine', 'extcmd'],
